@@ -138,6 +138,47 @@ func classifyC19(before, after wire.V, verr string) string {
 	return ""
 }
 
+// relayout writes the JSON value of a compact text in another legal spelling: "spaced" puts blanks around the
+// colons and after the commas the way several pretty printers do (`"k" : v`), "escaped" spells the first character
+// of every member name as a \u escape, "both" does both. The value is the same; so is everything that is made of it.
+func relayout(compact string, mode string) string {
+	var sb strings.Builder
+	for i := 0; i < len(compact); {
+		ch := compact[i]
+		if ch != '"' {
+			sb.WriteByte(ch)
+			if ch == ',' && mode != "escaped" {
+				sb.WriteString("\n ")
+			}
+			i++
+			continue
+		}
+		j := i + 1
+		for j < len(compact) && compact[j] != '"' {
+			if compact[j] == '\\' {
+				j++
+			}
+			j++
+		}
+		str := compact[i : j+1]
+		isKey := j+1 < len(compact) && compact[j+1] == ':'
+		if isKey && mode != "spaced" && len(str) > 2 && str[1] != '\\' && str[1] < 0x80 {
+			str = fmt.Sprintf("\"\\u%04x", str[1]) + str[2:]
+		}
+		sb.WriteString(str)
+		i = j + 1
+		if isKey {
+			if mode != "escaped" {
+				sb.WriteString(" : ")
+			} else {
+				sb.WriteString(":")
+			}
+			i++
+		}
+	}
+	return sb.String()
+}
+
 func runC19(c *Ctx) {
 	v := loadVocab(c)
 	c.Res.Rule = "Swagger 2.0 documents from the vocabulary generator in valid mode (every security scheme flavour, parameter location, simple/body schema, response/header form; half of them with local $refs to definitions/parameters/responses, cyclic definitions allowed), kept only if the independent validator (python jsonschema Draft4Validator on the shipped meta-schema) accepts them; then decode+encode and ExpandSpec, outputs validated again; plus boundary documents with required members holding the empty string; non-trivial = valid input with at least 6 members overall; distinct by document"
@@ -192,6 +233,7 @@ func runC19(c *Ctx) {
 	type job struct {
 		idx  int
 		what string
+		text string // the input text when it is another spelling of texts[idx]
 	}
 	var outs []string
 	var jobs []job
@@ -216,8 +258,43 @@ func runC19(c *Ctx) {
 			continue
 		}
 		outs = append(outs, string(out))
-		jobs = append(jobs, job{i, "roundtrip"})
+		jobs = append(jobs, job{i, "roundtrip", ""})
 		corrNorm(c, "swagger", d) // the re-encoding that is validated is the codec model's output
+		// the same value in other spellings of its text: what is made of it is validated too wherever it differs
+		if i%2 == 0 || i >= n {
+			for _, mode := range []string{"spaced", "escaped", "both"} {
+				alt := relayout(texts[i], mode)
+				if av, e := wire.Parse([]byte(alt)); e != nil || av.Canon() != d.Canon() {
+					c.Fail(Failure{Kind: "harness", Sig: "C19:relayout-broken", What: "the harness respelled a document into another value", Case: map[string]interface{}{"doc": json.RawMessage(texts[i]), "respelled": alt}})
+					continue
+				}
+				c.Hit("layout:" + mode)
+				aout, aerr, apan := roundTrip("swagger", []byte(alt))
+				if apan != "" || aerr != nil {
+					c.Fail(Failure{Kind: "oracle", Sig: "C19:roundtrip-fails", What: fmt.Sprint("round trip of a valid document ("+mode+" layout) fails: ", aerr, apan), Case: map[string]interface{}{"doc_text": alt}})
+					continue
+				}
+				if string(aout) != string(out) {
+					outs = append(outs, string(aout))
+					jobs = append(jobs, job{i, "roundtrip", alt})
+				}
+				var asw spec.Swagger
+				if json.Unmarshal([]byte(alt), &asw) != nil {
+					continue
+				}
+				var aeerr error
+				if safely(func() {
+					aeerr = spec.ExpandSpec(&asw, &spec.ExpandOptions{RelativeBase: "/virtual/root.json",
+						PathLoader: func(p string) (json.RawMessage, error) { return nil, fmt.Errorf("no such document %s", p) }})
+				}) != "" || aeerr != nil {
+					continue
+				}
+				if aeb, e := json.Marshal(&asw); e == nil {
+					outs = append(outs, string(aeb))
+					jobs = append(jobs, job{i, "expand", alt})
+				}
+			}
+		}
 		// expansion
 		var sw spec.Swagger
 		if err := json.Unmarshal([]byte(texts[i]), &sw); err != nil {
@@ -241,7 +318,7 @@ func runC19(c *Ctx) {
 			continue
 		}
 		outs = append(outs, string(eb))
-		jobs = append(jobs, job{i, "expand"})
+		jobs = append(jobs, job{i, "expand", ""})
 	}
 	for k, n := range invalidWhy {
 		c.Res.Notes = append(c.Res.Notes, fmt.Sprintf("generator output rejected by the validator (%d×): %s", n, k))
@@ -269,8 +346,11 @@ func runC19(c *Ctx) {
 			// the expansion output is invalid for exactly the reason its plain re-encoding already is
 			sig = strings.SplitN(prev, "|", 2)[0]
 		}
-		c.Fail(Failure{Kind: "oracle", Sig: sig, What: "valid document becomes invalid after " + jb.what + ": " + ovs[j].Error,
-			Case: map[string]interface{}{"doc": json.RawMessage(texts[jb.idx]), "with_refs": withRefs[jb.idx]}, Impl: clip(outs[j])})
+		cs := map[string]interface{}{"doc": json.RawMessage(texts[jb.idx]), "with_refs": withRefs[jb.idx]}
+		if jb.text != "" {
+			cs["doc_text"] = jb.text // the spelling of the document that was decoded
+		}
+		c.Fail(Failure{Kind: "oracle", Sig: sig, What: "valid document becomes invalid after " + jb.what + ": " + ovs[j].Error, Case: cs, Impl: clip(outs[j])})
 	}
 
 	// multi-document expansions: roots of generated reference graphs that the validator accepts (elements
